@@ -253,7 +253,70 @@ def gen_instance(rng, profile=None):
         inst["depots"] = depots
     if slots is not None:
         inst["maintenanceSlots"] = slots
+    if p.get("time_forms", "some") != "canonical":
+        vary_time_strings(inst, force=p.get("time_forms") == "all")
     return inst
+
+
+def _times(inst):
+    """[(container, key)] of every time string of an instance"""
+    out = []
+    for d in inst["departures"]:
+        for g in d["segments"]:
+            out.append((g, "departure"))
+    for g in inst.get("maintenanceSlots") or []:
+        out += [(g, "start"), (g, "end")]
+    return out
+
+
+def py_seconds(s):
+    return int((datetime.datetime.strptime(s, "%Y-%m-%dT%H:%M:%S") - BASE).total_seconds())
+
+
+def vary_time_strings(inst, force=False):
+    """One instance in seven lists its times in other forms DateTime::new accepts for the same instants: no seconds field,
+    unpadded fields, a trailing Z, a blank for the T, and midnight as 24:00:00 of the day before — after shifting the whole
+    timetable so that some activity boundary (preferably one where an arrival meets a departure) falls on midnight.  Its own
+    random stream (derived from the instance), so that the main stream of the generator is unchanged."""
+    r = random.Random(json.dumps(inst, sort_keys=True))
+    if not force and r.random() >= 1 / 7:
+        return
+    ts = _times(inst)
+    if not ts:
+        return
+    secs = {id(c): {} for c, _ in ts}
+    for c, k in ts:
+        secs[id(c)][k] = py_seconds(c[k])
+    # candidate boundary: a departure / start that coincides with some arrival / end
+    rdur = {(rt["id"], g["id"]): g["duration"] for rt in inst["routes"] for g in rt["segments"]}
+    ends = set()
+    for d in inst["departures"]:
+        for g in d["segments"]:
+            ends.add(py_seconds(g["departure"]) + rdur.get((d["route"], g["routeSegment"]), 0))
+    for g in inst.get("maintenanceSlots") or []:
+        ends.add(py_seconds(g["end"]))
+    starts = [secs[id(c)][k] for c, k in ts if k != "end"]
+    tied = [t for t in starts if t in ends]
+    pivot = r.choice(tied) if tied and r.random() < 0.8 else r.choice(starts)
+    shift = (-pivot) % 86400
+    for c, k in ts:
+        t = secs[id(c)][k] + shift
+        dt = BASE + datetime.timedelta(seconds=t)
+        y, mo, dd, h, mi, sc = dt.year, dt.month, dt.day, dt.hour, dt.minute, dt.second
+        form = r.choice(["canon", "nosec", "unpadded", "z", "blank", "24", "24"])
+        if form == "24" and (h, mi, sc) == (0, 0, 0):
+            pv = dt - datetime.timedelta(days=1)
+            c[k] = "%04d-%02d-%02dT24:00:00" % (pv.year, pv.month, pv.day)
+        elif form == "nosec" and sc == 0:
+            c[k] = "%04d-%02d-%02dT%02d:%02d" % (y, mo, dd, h, mi)
+        elif form == "unpadded":
+            c[k] = "%d-%d-%dT%d:%d:%d" % (y, mo, dd, h, mi, sc)
+        elif form == "z":
+            c[k] = "%04d-%02d-%02dT%02d:%02d:%02dZ" % (y, mo, dd, h, mi, sc)
+        elif form == "blank":
+            c[k] = "%04d-%02d-%02d %02d:%02d:%02d" % (y, mo, dd, h, mi, sc)
+        else:
+            c[k] = "%04d-%02d-%02dT%02d:%02d:%02d" % (y, mo, dd, h, mi, sc)
 
 
 def encode(inst, perm=None):
